@@ -36,6 +36,7 @@ UNI_DATA = [('normal', 0.0, 1.0, 30), ('gamma2', 5.0, 1e-3, 30), ('const', 3.0, 
 UNI_MODELS_QUICK = [('beta',), ('gamma',), ('gaussian',), ('loglaplace',), ('student_t',), ('uniform',), ('truncated',),
                     ('truncated', 'bounds'), ('kde', None, None, False), ('kde', 'silverman', None, False),
                     ('kde', 0.5, None, False), ('kde', None, 12, False), ('kde', 'scott', None, True),
+                    ('kde', 'np.float32:0.25', None, False), ('kde', 'callable:half-scott', None, False),
                     ('univariate', 'default'), ('univariate', 'parametric'), ('univariate', 'cands-instances')]
 BIV = [('clayton', 0.5), ('clayton', 4.0), ('gumbel', 1.0), ('gumbel', 2.5), ('frank', -5.74), ('frank', 3.0),
        ('clayton', None), ('gumbel', None), ('frank', None),
@@ -65,12 +66,16 @@ def zoo(tier, kinds=('uni', 'biv', 'gm', 'vine'), unfitted=True):
         for c in GM_CFG:
             for t in GM_TABLES:
                 out.append(('gm', c, t))
+        for c in ('default', 'kde-instance'):
+            out.append(('gm', c, GM_TABLES[2], (3, 'equi-', 'rotated', (), 30, 'str')))
         if unfitted:
             out.append(('gm', 'default', None))
     if 'vine' in kinds:
         for v in VINE_TYPES:
             for t in VINE_TABLES:
                 out.append(('vine', v, t))
+            # the model was fitted on a table with other marginals (same width) before: spec[3] = that earlier table
+            out.append(('vine', v, VINE_TABLES[1], (3, 'ar1', 'normal', (), 35, 'plain')))
             if unfitted:
                 out.append(('vine', v, None))
     return out
@@ -120,6 +125,12 @@ def build(spec, random_state=None):
         from copulas.multivariate import GaussianMultivariate
         if spec[2] is None:
             return GaussianMultivariate(random_state=random_state)
+        if len(spec) > 3:
+            first = tables.gaussian_copula_table(spec[3])[0]
+            first.columns = list(training_data(spec).columns)
+            gm = tables.fit_gm(first, spec[1], random_state=random_state)
+            gm.fit(training_data(spec).copy())
+            return gm
         return tables.fit_gm(training_data(spec), spec[1], random_state=random_state)
     if k == 'vine':
         from copulas.multivariate import VineCopula
@@ -127,6 +138,10 @@ def build(spec, random_state=None):
             warnings.simplefilter('ignore')
             v = VineCopula(spec[1], random_state=random_state)
             if spec[2] is not None:
+                if len(spec) > 3:
+                    first = tables.gaussian_copula_table(spec[3])[0]
+                    first.columns = list(training_data(spec).columns)
+                    v.fit(first)
                 v.fit(training_data(spec))
         return v
     raise ValueError(spec)
